@@ -82,8 +82,17 @@ func c12Run(c *h.Ctx) {
 	// the hand: that hand is played at the old or at the new level (as a whole), every later hand at the new one
 	var alt *blindLvl
 	var altDone chan struct{}
+	lastSettled := time.Now()
 	mon.BeforeSignal = func(p *Play) {
 		if breakPending {
+			return
+		}
+		// the gate opens the hand by itself 2 s after the set-up: on a slow machine the between-hands operations may
+		// have taken that long, and then "the level when the driver lets the hand open" is not the level at open.
+		// Late, or already open: no update here, the hand is played at the level in force now (or a moment ago).
+		if t := p.tableNow(); time.Since(lastSettled) > 1200*time.Millisecond || t.State.GameCount >= p.HandNo {
+			atSignal = cur
+			c.Feature("no-update-before-a-late-signal")
 			return
 		}
 		if r.Intn(3) == 0 {
@@ -173,6 +182,7 @@ func c12Run(c *h.Ctx) {
 		c.Count("snapshots_checked", 1)
 	}
 	mon.AfterHand = func(p *Play, hd *h.Hand) {
+		lastSettled = time.Now()
 		if cc := p.CreateCall(hd); cc != nil && cc.Opts != nil {
 			if !sameMoney(atSignal, cc.Opts.Ante, cc.Opts.Blind) {
 				c.Violate("C12/hand-options-differ-from-level-at-open", fmt.Sprintf("hand %d created with ante=%d blind=%+v, level at open %s", p.HandNo, cc.Opts.Ante, cc.Opts.Blind, atSignal), p.witness())
